@@ -525,6 +525,28 @@ func rulesMapOrderFn(c *Ctx, r *Report, f *ssa.Function, what string) {
 				}
 			})
 		}
+		// what is sorted is what is returned
+		if sortCall != nil && !escapedUnsorted {
+			sy := newSymb(f)
+			arg := sortCall.Call.Args[0]
+			if mi, ok := arg.(*ssa.MakeInterface); ok {
+				arg = mi.X
+			}
+			sortedExpr := sy.expr(arg).String()
+			okSame := true
+			retExpr := ""
+			instrs(f, func(in2 ssa.Instruction) {
+				if rt, ok := in2.(*ssa.Return); ok && len(rt.Results) >= 1 && instrDominates(sortCall, rt) {
+					retExpr = sy.expr(rt.Results[0]).String()
+					if rt.Results[0] != arg && retExpr != sortedExpr {
+						okSame = false
+					}
+				}
+			})
+			r.check(okSame, "MO", where, "the sorted list is the result", c.pos(sortCall.Pos()),
+				"the list that is sorted is the list that is returned: the result is in sorted order of its own elements",
+				"what is sorted ("+sortedExpr+") is not what is returned ("+retExpr+"): the result follows the order of something else (e.g. of the keys), which differs from the order of its own elements when one key is a prefix of another")
+		}
 		r.check(sorted && !escapedUnsorted, "MO", where, "map order does not reach the result", c.pos(rg.Pos()),
 			"the values collected while ranging over the map pass a sort before every return", "values collected in map iteration order reach a return unsorted: output order differs from run to run")
 	})
